@@ -119,7 +119,7 @@ func devCmd(args []string) {
 				fmt.Println("  note:", a)
 			}
 		}
-		res := SolveAll(enc.obls, *out, *timeout, 6)
+		res := SolveAll(enc.obls, *out, *timeout, 6, true)
 		for _, o := range enc.obls {
 			r := res[o]
 			want := "unsat"
